@@ -720,6 +720,12 @@ class DeliveryLog:
     (reportViolation; abort = it was the caller's ABORT) or delivered, with everything the model takes as a parameter of the
     delivery observed on the real objects (schema present, readiness, _doCall raised / its Deferred failed, checkResults raised,
     the answer's objectSentDeferred failed, formatting the target raises, str() of the exception raises, local-failure log on).
+    history: the same records in the order in which the callee CONCLUDED the calls -- a rejected call the moment
+    CallUnslicer.reportViolation runs (while the call is being parsed: its `error` is handed to send() at once), a delivery the
+    moment its chain reaches Broker._callFinished or Broker.callFailed (a later turn: after the deliveries queued before it,
+    after a stall on a gift, after the method's Deferred fired); deliveries never concluded come last, in arrival order.  This
+    is the order of the reply events, the list lib/Callee.v's handle_all folds over (arrival order is not: a call rejected
+    after three deliveries arrived is answered before any of them runs).
     sent: every AnswerSlicer / ErrorSlicer handed to Broker.send, in order."""
 
     def __init__(self, b):
@@ -728,6 +734,12 @@ class DeliveryLog:
         self.inbound = []
         self.sent = []
         self.b = b
+        seq = [0]           # event counter: when was each call concluded?
+
+        def concluded(rec):
+            if rec is not None and rec.get("t") is None:
+                seq[0] += 1
+                rec["t"] = seq[0]
         byreq = {}          # request id -> record (for the answers / errors handed to send(): never id 0)
         bydel = {}          # id(delivery) -> record: one-way calls all share request id 0
         alive = []          # (keeps the deliveries alive, so that their ids stay distinct)
@@ -750,7 +762,9 @@ class DeliveryLog:
         def rejected(u, f):
             if u.stage > 0:
                 abort = bool(f.value.args and f.value.args[0] == "ABORT received")
-                self.inbound.append(dict(kind="rejected", reqid=u.reqID, abort=abort, log_local=log_local(), nameable=nameable(f)))
+                rec = dict(kind="rejected", reqid=u.reqID, abort=abort, log_local=log_local(), nameable=nameable(f), t=None)
+                concluded(rec)
+                self.inbound.append(rec)
         _RV_HOOKS.clear()
         _RV_HOOKS[id(b)] = rejected
 
@@ -763,7 +777,8 @@ class DeliveryLog:
             except Exception:
                 repr_raises = True
             rec = dict(kind="delivered", reqid=delivery.reqID, schema=bool(delivery.methodSchema), ready=True, raises=False,
-                       result_ok=True, answer=0, repr_raises=repr_raises, render_raises=False, log_local=log_local(), nameable=True)
+                       result_ok=True, answer=0, repr_raises=repr_raises, render_raises=False, log_local=log_local(), nameable=True,
+                       t=None)
             byreq[delivery.reqID] = rec
             bydel[id(delivery)] = rec
             alive.append(delivery)
@@ -798,6 +813,7 @@ class DeliveryLog:
 
         def fin(res, delivery):
             rec = bydel.get(id(delivery))
+            concluded(rec)
             try:
                 return orig_fin(res, delivery)
             except Violation:
@@ -809,6 +825,8 @@ class DeliveryLog:
             if delivery is not None and id(delivery) not in ran:
                 self.handled.append((1, reqID))
             rec = bydel.get(id(delivery)) if delivery is not None else byreq.get(reqID)
+            if delivery is not None:
+                concluded(rec)
             if rec is not None:
                 try:
                     str(f.value)
@@ -860,7 +878,10 @@ class DeliveryLog:
         b.scheduleCall, b._doCall, b.callFailed, b._callFinished, b.send = sched, do, failed, fin, send
 
     def summary(self):
+        n = len(self.inbound)
+        order = sorted(range(n), key=lambda i: (self.inbound[i]["t"] is None, self.inbound[i]["t"] or 0, i))
         return dict(queue=[tuple(x) for x in self.queue], handled=list(self.handled), inbound=[dict(x) for x in self.inbound],
+                    history=[dict(self.inbound[i]) for i in order],
                     sent=[tuple(x) for x in self.sent], active=sorted(self.b.activeLocalCalls.keys()),
                     crashes=[list(x) for x in self.crashes], sent_after_crash=[tuple(x) for x in self.sent_after_crash])
 
